@@ -6,6 +6,8 @@ from xml.sax.saxutils import quoteattr
 import numpy as np
 from hypothesis import strategies as st
 
+from mv import hperm
+
 from mv.quiet import silenced, workdir
 from mv.runner import FuzzPart, HypPart, Violation
 
@@ -44,14 +46,14 @@ def coord(draw):
         return 0.0
     if k == "negzero":
         return -0.0
-    return float(draw(st.integers(-20, 20)))
+    return float(draw(hperm.integers(-20, 20)))
 
 
 @st.composite
 def document(draw):
     els_all = _elements()
-    n = draw(st.one_of(st.just(1), st.integers(2, 8), st.integers(2, 30)))
-    if draw(st.integers(0, 29)) == 0:
+    n = draw(st.one_of(st.just(1), hperm.integers(2, 8), hperm.integers(2, 30)))
+    if draw(hperm.integers(0, 29)) == 0:
         n = draw(st.sampled_from([130, 260, 300]))        # now and then a document with indices beyond 127 / 255
     scheme = draw(st.sampled_from(["sequential", "shuffled", "sparse", "arbitrary", "positional-trap", "zero-based", "long-prefix", "case-variants"]))
     if scheme == "sequential":
@@ -59,22 +61,22 @@ def document(draw):
     elif scheme == "zero-based":
         ids = ["a%d" % i for i in range(n)]
     elif scheme == "shuffled":
-        ids = ["a%d" % (i + 1) for i in draw(st.permutations(range(n)))]
+        ids = ["a%d" % (i + 1) for i in draw(hperm.permutations(range(n)))]
     elif scheme == "sparse":
-        ids = ["a%d" % k for k in draw(st.lists(st.integers(1, 999), min_size=n, max_size=n, unique=True))]
+        ids = ["a%d" % k for k in draw(st.lists(hperm.integers(1, 999), min_size=n, max_size=n, unique=True))]
     elif scheme == "positional-trap":
         # ids that are valid positions of *other* atoms: a2 a1 a4 a3 ..., reversed, rotated
         base = ["a%d" % (i + 1) for i in range(n)]
-        k = draw(st.integers(1, max(1, n - 1)))
+        k = draw(hperm.integers(1, max(1, n - 1)))
         ids = base[k:] + base[:k] if draw(st.booleans()) else list(reversed(base))
     elif scheme == "long-prefix":
         # descriptive ids sharing a long common prefix (carboxylate_C, carboxylate_O1, ...)
         pre = draw(st.sampled_from(["carboxylate_", "linker-ring.atom", "node_Zr6_O", "a" * 9, "molecule1:residue2:"]))
-        ids = ["%s%s" % (pre, k) for k in draw(st.lists(st.integers(0, 99999), min_size=n, max_size=n, unique=True))]
+        ids = ["%s%s" % (pre, k) for k in draw(st.lists(hperm.integers(0, 99999), min_size=n, max_size=n, unique=True))]
     elif scheme == "case-variants":
         # PDB-style names that differ only in letter case (CA alpha carbon vs Ca calcium)
         pool = ["CA", "Ca", "cA", "ca", "HO", "Ho", "hO", "ho", "CO", "Co", "cO", "co", "NA", "Na", "nA", "na", "OD1", "Od1", "oD1", "od1"]
-        ids = list(draw(st.permutations(pool)))[:n] if n <= len(pool) else ["%s%d" % (pool[i % len(pool)], i // len(pool)) for i in range(n)]
+        ids = list(draw(hperm.permutations(pool)))[:n] if n <= len(pool) else ["%s%d" % (pool[i % len(pool)], i // len(pool)) for i in range(n)]
     else:
         ids = draw(st.lists(st.text(alphabet=ID_ALPHABET, min_size=1, max_size=14), min_size=n, max_size=n, unique=True))
     atoms = []
@@ -85,10 +87,10 @@ def document(draw):
         draw(st.sampled_from(["none-absent", "none-empty"]))
     bonds = []
     if bk in ("some", "many"):
-        nb = draw(st.integers(1, 3 if bk == "some" else min(40, n * (n - 1) // 2)))
+        nb = draw(hperm.integers(1, 3 if bk == "some" else min(40, n * (n - 1) // 2)))
         for _ in range(nb):
-            i = draw(st.integers(0, n - 1))
-            j = draw(st.integers(0, n - 1).filter(lambda x: x != i))
+            i = draw(hperm.integers(0, n - 1))
+            j = draw(hperm.integers(0, n - 1).filter(lambda x: x != i))
             bonds.append({"refs": [ids[i], ids[j]], "order": draw(st.sampled_from(["1", "2", "3", "1.5", "1.0"]))})
     return {"atoms": atoms, "bonds": bonds, "bond_kind": bk, "scheme": scheme,
             "wrapper": draw(st.booleans()), "decl": draw(st.booleans()), "extras": draw(st.booleans()),
